@@ -135,3 +135,10 @@ META["C24"] = dict(
          "zero-padding rule. The one colliding class on the pinned tree is a recorded finding with an exact signature.",
     note="Known finding: metadata differing only by trailing zeros inside the last chunk (known_findings.json).",
 )
+META["C25"] = dict(
+    technique="grid-walk monitor (bounds + one-step monotonicity along three axes) + acceptance-decision monitor on dummy proofs",
+    text="Security estimates are observed through the public Proof accessors at thousands of grid points and compared with "
+         "their neighbours one step up each monotone axis and with the documented caps; the verifier's acceptable-options "
+         "decision is compared with the estimate at the threshold and one bit either side, and with set membership.",
+    note="No independent re-derivation of the soundness formulas: the property bounds and orders the estimates, it does not fix their values.",
+)
